@@ -707,7 +707,7 @@ func eq(a, b reflect.Value, path string) (bool, string) {
 	case reflect.Struct:
 		for i := 0; i < a.NumField(); i++ {
 			f := a.Type().Field(i)
-			if !f.IsExported() {
+			if !f.IsExported() && !f.Anonymous { // (unexported embedded structs are flattened like any other)
 				continue
 			}
 			if f.Tag.Get("thrift") == "" && !f.Anonymous {
